@@ -157,3 +157,20 @@ def build(reg):
                      name='cell::apply_surface_tension_and_membrane_elasticity::<prologue>'))
     reg.add(Contract('cell::get_angle_gradient', PROP, post=post_angle_gradient, name_locals=1))
     lemmas(reg)
+
+
+EXPLANATION = ("Per-element contracts (arbitrary iteration of the per-face loops, from an arbitrary state satisfying the stated invariants): "
+               "pressure: an unused face exerts nothing; a used face gives each of its three nodes p*cr/6 with cr the area vector of the current "
+               "node positions (sign, factor 1/3, normal and area all pinned by this), nothing else is written; "
+               "tension + membrane elasticity: unused / zero-area faces exert nothing; nn*force_i = -gamma_eff/2 * cr x (x_k - x_j), i.e. "
+               "force_i = -gamma_eff * dA/dx_i with gamma_eff = gamma(face type) + (k_A/A_t)(A_cell/A_t - 1); the three forces of a face sum to "
+               "zero and have zero total torque; the target area is cbrt(ratio*V^2) on loop entry (prefix contract). "
+               "Lemmas (mathematics, same back ends): d|cr|^2/dx1 = 2 cr x (x3-x2) (area gradient), d(x1.(x2 x x3))/dx1 = x2 x x3 (volume gradient), "
+               "cr = x2 x x3 + x3 x x1 + x1 x x2. get_angle_gradient: the three gradients sum to zero on every return path. "
+               "Net pressure force/torque zero and 'pressure force = p dV/dx_i' for the whole cell additionally need the quoted lemma L-closed "
+               "(antisymmetric edge terms cancel on a closed oriented surface); they are not machine-checked.")
+ASSUMPTIONS = ["exact reals", "face-cache invariant FC(f): area >= 0, (2 area)^2 = |cr|^2, normal*(2 area) = cr for the faces visited (established by update_face_normal_and_area, C12; apply_internal_forces refreshes the cache first, C04)",
+               "node ids of a live face are in range and pairwise distinct (C01)", "target area > 0",
+               "L-closed (quoted): on a closed consistently oriented surface the per-face terms x3 x x1 + x1 x x2 cancel around every vertex and the area vectors sum to zero"]
+UNVERIFIED = ["cell::apply_bending_forces (hinge forces) and cell::regularize_face_angles beyond the zero-sum of the angle gradients: not yet under contract",
+              "rotation equivariance of the kernels (translation equivariance is immediate: only differences of positions and the cached normal enter)"]
